@@ -420,7 +420,7 @@ def run(ctx):
     rng = ctx.rng
     progs = [(name, e, G.to_sx(e)) for name, e in corpus().items()]
     base = rng.getrandbits(48)
-    for i in range(ctx.n(210, 1300)):
+    for i in range(ctx.n(170, 1300)):
         prng = random.Random(base + i)
         gen = G.Gen(prng, p_err=prng.choice([0.15, 0.25, 0.4]), max_fan=3 if ctx.tier == "quick" else 4)
         for _ in range(30):
